@@ -34,7 +34,8 @@ Record bcase := mkcase {
   k_pg_after : list (key * Z);   (* purged_ records after EndBlock *)
   k_tm_ok : bool;                (* the real ValidatorSet.UpdateWithChangeSet accepted k_ups *)
   k_next_after : vset;           (* the real set after the update (sorted by key) *)
-  k_quiet : Z }.                 (* number of consecutive blocks up to this one with the same candidate table, options and malicious set *)
+  k_quiet : Z;                  (* number of consecutive blocks up to this one with the same candidate table, options and malicious set *)
+  k_staked : list (key * Z) }.   (* own-stake totals (st__t_ records) committed by the previous block *)
 
 Definition minp_of (c : bcase) : Z := min_power (b_opts (k_in c)).
 Definition top_of (c : bcase) : Z := o_top (b_opts (k_in c)).
@@ -145,8 +146,16 @@ Definition keyed_code (c : bcase) : Z := if key_mismatchb c then 1 else 0.
 Definition negp_code (c : bcase) : Z :=
   if existsb (fun d => (c_power d <? 0) || (c_stake d <? 0)) (b_cands (k_in c)) then 1 else 0.
 
+(* monitor 6: every validator whose staked total is at least the minimum self delegation has a
+   validator record (otherwise it can never be elected: the election from the stakes is not the
+   election from the records).  0 holds, 1 fails *)
+Definition staked_code (c : bcase) : Z :=
+  if existsb (fun kv => (o_min (b_opts (k_in c)) <=? kv.2)
+                        && negb (existsb (fun d => N.eqb (c_addr d) kv.1) (b_cands (k_in c)))) (k_staked c)
+  then 1 else 0.
+
 Definition check_case (c : bcase) : list Z :=
-  [mm_code c; tm_code c; acc_code c; rule_code c; conv_code c; keyed_code c; negp_code c].
+  [mm_code c; tm_code c; acc_code c; rule_code c; conv_code c; keyed_code c; negp_code c; staked_code c].
 Definition check_cases (cs : list bcase) : list Z := flat_map check_case cs.
 
 (* a block in which the node called logger.Fatal / panicked (process exit) inside EndBlock.  Both
